@@ -959,6 +959,7 @@ func runClusterScenario(bin, scratch string, seed int64, sc clScenario) (rep clR
 	}
 
 	// fault controller
+	orphanPlanted := false
 	loadEnd := time.Now().Add(time.Duration(sc.LoadMs) * time.Millisecond)
 	sleepR := func(lo, hi int) { time.Sleep(time.Duration(lo+rng.Intn(hi-lo+1)) * time.Millisecond) }
 	note := func(f string, a ...interface{}) {
@@ -1155,6 +1156,36 @@ func runClusterScenario(bin, scratch string, seed int64, sc clScenario) (rep clR
 			}
 			sleepR(100, 800)
 			restart(ns)
+		case "orphan-snap-all-kill":
+			// every node is killed; one of them is left with a snapshot FILE its WAL never recorded (the crash point between SaveSnap and
+			// wal.SaveSnapshot); after the restart the marker key of that file's image must not exist on any node
+			var ns []*clNode
+			for _, i := range rng.Perm(len(c.nodes)) {
+				if c.nodes[i].member {
+					ns = append(ns, c.nodes[i])
+				}
+			}
+			for _, n := range ns {
+				sleepR(0, 100)
+				c.kill(n)
+				note("SIGKILL node %d (all)", n.id)
+			}
+			planted := 0
+			for _, n := range ns {
+				if msg, err := plantOrphanSnapshot(n); err == nil {
+					note("%s", msg)
+					planted++
+					if planted == 2 {
+						break
+					}
+				}
+			}
+			if planted == 0 {
+				note("no node had a recorded snapshot yet: nothing planted")
+			}
+			sleepR(100, 400)
+			restart(ns)
+			orphanPlanted = planted > 0
 		case "lag-follower":
 			// a follower is down while the others cross the snapshot threshold and compact: it must be caught up by MsgSnap
 			if fs := followers(); len(fs) > 0 {
@@ -1337,6 +1368,18 @@ func runClusterScenario(bin, scratch string, seed int64, sc clScenario) (rep clR
 			}
 			sort.Strings(parts)
 			problem("replicas-disagree", fmt.Sprintf("key %s at quiescence: %s", k, strings.Join(parts, " | ")))
+		}
+	}
+	// (d') a snapshot file the WAL never recorded was planted: its image (the marker key) must not have become anybody's keyspace
+	if orphanPlanted {
+		for _, n := range c.nodes {
+			if !n.member || !n.isAlive() {
+				continue
+			}
+			if out, err := c.once(n, 3*time.Second, "GET", "orphan-marker"); err == nil && out != "$-1\r\n" {
+				problem("lost-write", fmt.Sprintf("node %d started from a snapshot FILE its WAL never recorded (the crash point between SaveSnap and wal.SaveSnapshot): GET orphan-marker = %q; "+
+					"raft replays the log from the newest RECORDED snapshot, the keyspace must start from the same one", n.id, out))
+			}
 		}
 	}
 	// (e) ledger: INCR-only counter and SADD-only set, counted independently of the linearizability checker
